@@ -1093,6 +1093,21 @@ def fixed_scenarios(S, tier, seed):
             except base.Violation as v:
                 v.scenario = scn
                 raise
+    # always-run: files whose every Stream carries an unverifiable check, led by 0..2 empty Streams of the same kind (the decoder announces
+    # LZMA_UNSUPPORTED_CHECK once per Stream, possibly several times before the first byte of data; for xz that is a warning, status 2)
+    for lead in (0, 1, 2):
+        for newid in (0, 1):
+            for chk in ("crc32", "sha256"):
+                inp = {"kind": "xz", "streams": [{"plain": plain, "bs": 0, "check": chk, "ct": 1, "preset": 0, "pad": 0}],
+                       "corrupt": {"type": "unsup", "s": 0, "newid": newid, "all": lead}}
+                scn = {"part": "dec", "inputs": [inp], "runs": [run("xz-dc"), run("xz-t"), run("xz-d"), run("xzdec")]}
+                S.evaluations += 1
+                S.count("fixed_unverifiable_check_scenarios")
+                try:
+                    oracle(scn, S)
+                except base.Violation as v:
+                    v.scenario = scn
+                    raise
 
 
 if __name__ == "__main__":
